@@ -142,7 +142,8 @@ def check_loads(case, gen, pkg, feats) -> List[Violation]:
         vs.append(Violation("C04", clause, detail, feats, case, mech or ("c04:" + clause)))
 
     written = sorted(p.name for p in pkg_dir.iterdir() if p.is_file())
-    if sorted(gen.reported_files) != written or len(set(gen.reported_files)) != len(gen.reported_files):
+    # (plugins may write files of their own - ExtractOperations does; the statement's option list does not include plugins)
+    if not gen.config.get("plugins") and (sorted(gen.reported_files) != written or len(set(gen.reported_files)) != len(gen.reported_files)):
         v("reported-files", "reported %r, on disk %r" % (sorted(gen.reported_files), written))
     for p in pkg_dir.glob("*.py"):
         try:
@@ -214,7 +215,10 @@ def has_inline_fragment_on_interface(case, queries: str) -> bool:
     import re
     sdl = case.get("_sdl") or ""
     ifaces = set(re.findall(r"^interface (\w+)", sdl, re.M))
-    return any(m in ifaces for m in re.findall(r"\.\.\.\s*on\s+(\w+)", queries))
+    conds = re.findall(r"\.\.\.\s*on\s+(\w+)", queries)
+    if case.get("corpus"):
+        conds += re.findall(r"fragment\s+\w+\s+on\s+(\w+)", queries)  # a named fragment on a sub-interface spread at the super-interface's position is the same construct
+    return any(m in ifaces for m in conds)
 
 
 def relabel_string_literal_findings(case, queries: str, violations: List[Violation]) -> None:
@@ -628,6 +632,42 @@ def argument_values(opnode, schema_ref, pkg, cfg, rng, pmap) -> Optional[Dict[st
 # --------------------------------------------------------------------------- driver used by c01/c02/c04/c05
 
 
+def corpus_cases(prop: str, tier: str) -> List[Dict[str, Any]]:
+    """The repository's own example projects (tests/main/clients/*) as fixed cases: ordinary use must keep working whatever else is explored.
+    Only the inputs are taken from there (schema, operations, configuration, included files); the generator is the tree under test."""
+    import toml
+    from graphql import parse, print_ast
+    base = Path("/repo/tests/main/clients")
+    out: List[Dict[str, Any]] = []
+    if not base.is_dir():
+        return out
+    for d in sorted(base.iterdir()):
+        pp = d / "pyproject.toml"
+        if not pp.is_file() or d.name in ("remote_schema", "invalid_pyprojects"):
+            continue
+        try:
+            cfg = dict(toml.load(pp)["tool"]["ariadne-codegen"])
+            sdl = (d / cfg.pop("schema_path")).read_text(encoding="utf-8")
+            qp = cfg.pop("queries_path", None)
+            queries = "\n\n".join(print_ast(x) for x in parse((d / qp).read_text(encoding="utf-8")).definitions) if qp else ""
+        except Exception:  # noqa: BLE001
+            continue
+        drives = prop != "C04"
+        if drives and (cfg.get("scalars") or cfg.get("plugins") or not queries or cfg.get("base_client_file_path")):
+            continue  # driven only where the reference server's token values are conformant for the configuration
+        extra = {}
+        for rel in list(cfg.get("files_to_include") or []) + ([cfg["base_client_file_path"]] if cfg.get("base_client_file_path") else []):
+            if (d / rel).is_file():
+                extra[rel] = (d / rel).read_text(encoding="utf-8")
+        cfg.pop("include_comments", None)
+        case = {"seed": 0, "idx": 900000 + len(out), "dirty": ["frag.inline.on_interface"], "cfg": cfg, "props": [prop], "tier": tier, "corpus": d.name, "_sdl": sdl, "_queries": queries,
+                "_features": ["corpus." + d.name], "_no_regen": True}
+        if extra:
+            case["extra_files"] = extra
+        out.append(case)
+    return out
+
+
 def run_shared(prop: str, tier: str, seed: int, n_cases: int, rule: str, floors: Dict[str, int], dirty_sets: Optional[List[List[str]]] = None,
                level: str = "exploration", extra_case_kw: Optional[Dict[str, Any]] = None, timeout_s: float = 180.0, case_hook=None) -> int:
     r = core.Run(prop, tier, seed, level=level)
@@ -648,8 +688,13 @@ def run_shared(prop: str, tier: str, seed: int, n_cases: int, rule: str, floors:
             case_hook(c, i)
         cases.append(c)
 
+    if prop in ("C01", "C02", "C04"):
+        cases.extend(corpus_cases(prop, tier))
+
     def on_result(case, res):
         r.add(case, res)
+        if case.get("corpus"):
+            r.count("corpus_cases")
         if res.status != "inconclusive":
             r.mark_distinct(tuple(sorted(res.sets.get("features", []))))
 
